@@ -458,12 +458,40 @@ def r15_9(prog: Program, rep: Report):
     # ... and on those paths no signature is taken of the alias itself (inspect.signature(Stack[int]) is (*args, **kwargs)):
     # where the fields are described by the constructor alone, it is the constructor of the origin class
     sig_of_alias = []
+
+    def _contradictory(atoms):
+        """A spliced path can combine outcomes no run can: a pure private helper that was read in place at one call (its tests
+        all passed) and left opaque at the next (`_helper(obj) is None` taken as true), or `X is None` next to `isclass(X)`."""
+        known = {a: val for a, val in atoms}
+        for a, val in atoms:
+            if a[0] == "cmp" and a[1] == "is" and ("const", None) in a[2:4] and val:
+                x = a[2] if a[3] == ("const", None) else a[3]
+                if known.get(("call", ("ref", "inspect.isclass"), (x,), ())) is True:
+                    return True
+                if x[0] == "call" and x[1][0] == "ref" and x[1][1].startswith(C.INSP + "._") and x[1][1] in prog.functions and not x[3]:
+                    h = prog.functions[x[1][1]]
+                    try:
+                        hps = P.paths_of(prog, h)
+                    except Exception:
+                        continue
+                    sigma = dict(zip(h.params, x[2]))
+                    none_exits = [q for q in hps if q.exit[0] == "return" and q.exit[1] == ("const", None)]
+                    feasible = False
+                    for q in none_exits:
+                        if not any(known.get(P.substitute(g, sigma)) is (not pol) for g, pol in T.derive_atoms(q.guards())):
+                            feasible = True
+                    if none_exits and not feasible:
+                        return True
+        return False
+
     for p in rejected:
         atoms = T.derive_atoms(p.guards())
+        if _contradictory(atoms):
+            continue
         class_origin = lambda a: T.is_call_to(a, "inspect.isclass") and a[2] and T.is_call_to(a[2][0], "typing.get_origin") and a[2][0][2][:1] == (obj,)  # noqa: E731
         # (known not to be a parameterised user generic: the class-origin test failed, alone or as a conjunct with "has parameters")
         about_params = lambda y: T.contains(y, lambda z: z == ("const", "__parameters__") or (z[0] == "attr" and z[2] == "__parameters__")) and not T.contains(y, lambda z: z[0] == "call" and z[1][0] == "ref" and z[1][1].startswith(C.INSP))  # noqa: E731
-        not_generic_alias = any((not val) and (class_origin(a) or (a[0] == "boolop" and a[1] == "and" and any(class_origin(y) for y in a[2]) and all(class_origin(y) or about_params(y) for y in a[2]))) for a, val in atoms)
+        not_generic_alias = any((not val) and (class_origin(a) or about_params(a) or (a[0] == "boolop" and a[1] == "and" and any(class_origin(y) for y in a[2]) and all(class_origin(y) or about_params(y) for y in a[2]))) for a, val in atoms)
         for tm in p.all_terms():
             for x in T.walk(tm):
                 if T.is_call_to(x, f"{C.INSP}.signature", f"{C.INSP}.cached_signature", "inspect.signature") and x[2][:1] == (obj,) and not not_generic_alias:
@@ -532,7 +560,7 @@ def alias_substitution(prog: Program, rep: Report, rule: str):
                     sites[x] = None
                 if is_zip(x) and any(T.contains(a, lambda y: y == ("const", "__parameters__") or (y[0] == "attr" and y[2] == "__parameters__")) for a in x[2]):
                     zips[x] = None
-    has_lookup = any(x[0] == "sub" and T.is_call_to(x[1], "builtins.dict") and len(x[1][2]) == 1 and is_zip(x[1][2][0]) for p in ps for tm in p.all_terms() for x in T.walk(tm))
+    has_lookup = any(x[0] == "sub" and ((T.is_call_to(x[1], "builtins.dict") and len(x[1][2]) == 1 and is_zip(x[1][2][0])) or (x[1][0] == "comp" and x[1][1] == "dict" and len(x[1][3]) == 1 and is_zip(x[1][3][0][0]))) for p in ps for tm in p.all_terms() for x in T.walk(tm))
     if not sites and not has_lookup:
         rep.held(rule, gh.qualname, gh.loc, "no member hint is re-subscripted with substituted arguments", detail="alias-substitution", nontrivial=False)
         return
@@ -555,7 +583,15 @@ def alias_substitution(prog: Program, rep: Report, rule: str):
                     continue
                 why = "a member annotated with a bare generic class (`raw: Box` inside `Holder(Generic[T])`) is re-subscripted with the alias's arguments because the class, too, has __parameters__: Holder[int] converts raw.v to int, input that Holder and Box pass through is rejected or silently re-typed"
     # a member that *is* one of the class's parameters is looked up in the map -- under the test that it is a key of the map
-    is_map = lambda z: T.is_call_to(z, "builtins.dict") and len(z[2]) == 1 and is_zip(z[2][0])  # noqa: E731
+    def is_map(z):
+        if T.is_call_to(z, "builtins.dict") and len(z[2]) == 1 and is_zip(z[2][0]):
+            return True
+        # the same map filled by a loop: {k: v for k, v in zip(params, args)}
+        if z[0] == "comp" and z[1] == "dict" and len(z[3]) == 1 and not z[4] and is_zip(z[3][0][0]) and z[2][0] == "pair":
+            zc = z[3][0][0]
+            return z[2][1] == ("zipelem", zc[2][0], zc) and z[2][2] == ("zipelem", zc[2][1], zc)
+        return False
+
     for p in ps:
         for tm in p.all_terms():
             for x in T.walk(tm):
@@ -616,9 +652,27 @@ def classvar_no_field(prog: Program, rep: Report, rule: str):
         rep.undecided(rule, gh.qualname, gh.loc, "no path consults the signature for hints", detail="classvar-no-field")
         return
     knows = lambda g: T.contains(g, lambda y: T.is_call_to(y, f"{C.INSP}.isclassvartype") or (y[0] == "ref" and y[1] in ("typing.ClassVar", "typing_extensions.ClassVar")))  # noqa: E731
+    def _through(pred):
+        """pred on a guard, or -- where the guard asks a private helper of the module -- on what that helper computes."""
+        def q(g):
+            if pred(g):
+                return True
+            for x in T.walk(g):
+                if x[0] == "call" and x[1][0] == "ref" and x[1][1].startswith(C.INSP + "._") and x[1][1] in prog.functions:
+                    try:
+                        hps = P.paths_of(prog, prog.functions[x[1][1]])
+                    except Exception:
+                        continue
+                    if any(pred(tm) for hp in hps for tm in hp.all_terms()):
+                        return True
+            return False
+        return q
+
+    knows = _through(knows)
     ok = all(any(knows(g) for g, _ in p.guards()) for p in fallback)
     # ... and the private ones (no private name is ever a field: a lone `_cache: dict` declares none either)
     private = lambda g: T.contains(g, lambda y: y[0] == "call" and y[1][0] == "attr" and y[1][2] == "startswith" and y[2][:1] == (("const", "_"),))  # noqa: E731
+    private = _through(private)
     ok_private = all(any(private(g) for g, _ in p.guards()) for p in fallback)
     rep.check(ok_private, rule, gh.qualname, gh.loc, "the signature fallback is decided on the public hints", "the constructor's signature is consulted only when every class-level annotation is a ClassVar: `class Client: _cache: dict; def __init__(self, host: str, port: int)` has the one private annotation as its only 'field' -- the routine knows `_cache` alone, host and port are dropped, unmarshal(Client, Client('h', 80)) raises TypeError or silently returns the defaults", detail="private-no-field")
     rep.check(ok, rule, gh.qualname, gh.loc, f"the signature fallback ({len(fallback)} path(s)) is decided on the hints that are no class variables", "the constructor's signature is consulted only when there is no class-level hint at all: a lone `registry: ClassVar[dict] = {}` on a plain class whose fields come from an annotated __init__(self, a: str, b: int) leaves the routine without any field -- marshal gives {}, unmarshal(V, V('1', 2)) raises TypeError (missing 'a')", detail="classvar-no-field")
